@@ -1,6 +1,7 @@
 package main
 
 import (
+	"io"
 	"bytes"
 	"encoding/json"
 	"errors"
@@ -67,6 +68,27 @@ func (w *tstWriter) Write(p []byte) (int, error) {
 	return len(p), nil
 }
 
+// richWriter offers, besides Write, every optional method the io package (or a wrapper) might prefer over it:
+// WriteString, WriteByte, WriteRune, ReadFrom. The contract is one call of Write; none of the others.
+type richWriter struct {
+	tstWriter
+	other []string
+}
+
+func (w *richWriter) WriteString(s string) (int, error) {
+	w.other = append(w.other, "WriteString")
+	return len(s), nil
+}
+func (w *richWriter) WriteByte(b byte) error { w.other = append(w.other, "WriteByte"); return nil }
+func (w *richWriter) WriteRune(r rune) (int, error) {
+	w.other = append(w.other, "WriteRune")
+	return 1, nil
+}
+func (w *richWriter) ReadFrom(r io.Reader) (int64, error) {
+	w.other = append(w.other, "ReadFrom")
+	return io.Copy(&w.tstWriter, r)
+}
+
 var c16Prefixes = [][]*Op{
 	nil,
 	{opPtr(mkOp(kSafeString, "s:"))},
@@ -115,6 +137,20 @@ func c16Routes(f string, isF bool, args []interface{}, seen func([]byte)) string
 		wn, werr := (&tstWriter{mode: mode}).Write(ref)
 		if n != wn || err != werr {
 			return fmt.Sprintf("%s: F variant returned (%d,%v), the writer returned (%d,%v)", desc, n, err, wn, werr)
+		}
+	}
+	for mode := 0; mode <= 3; mode += 3 {
+		w := &richWriter{tstWriter: tstWriter{mode: mode}}
+		var n int
+		var err error
+		if isF {
+			n, err = redact.Fprintf(w, f, args...)
+		} else {
+			n, err = redact.Fprint(w, args...)
+		}
+		wn, werr := (&tstWriter{mode: mode}).Write(ref)
+		if len(w.other) != 0 || len(w.writes) != 1 || !bytes.Equal(w.writes[0], ref) || n != wn || err != werr {
+			return fmt.Sprintf("%s: F variant on a writer that also has WriteString/WriteByte/WriteRune/ReadFrom: Write calls %q, other methods called %v, returned (%d,%v); want exactly one Write of %q and what it returns (%d,%v)", desc, w.writes, w.other, n, err, ref, wn, werr)
 		}
 	}
 	// builder and nested routes, after each outer-buffer prefix
